@@ -615,6 +615,41 @@ def quic_client_flight_sequences(ctx, maxlen, part, nparts, request, adversary):
     ctx.extra["exhaustive"] = True
 
 
+
+def quic_post_handshake_table(ctx, role):
+    """After a real handshake a key-holding peer sends, in a 1-RTT CRYPTO frame, one handshake message of every type byte to a QuicConnection with the
+    default configuration: a type TLS 1.3 does not permit after the handshake must close the connection with CRYPTO_ERROR + unexpected_message."""
+    from vlib import endpoints as E
+    from vlib.takeover import Takeover
+
+    state = "CLIENT_POST_HANDSHAKE" if role == "client" else "SERVER_POST_HANDSHAKE"
+    for t in range(256):
+        with E.pinned(("c11-quic-post", role)):
+            tk = Takeover(role)
+            msg = bytes([t, 0, 0, 0]) if t % 2 else bytes([t, 0, 0, 3, 1, 2, 3])
+            case = {"kind": "qpost", "role": role, "type": t}
+            ctx.case(("qpost", role, t), nontrivial=True, classes=["quic-post-handshake:" + role])
+            try:
+                tk.send_frames([{"name": "crypto", "offset": 0, "data": msg}])
+                tk.cycle()
+            except Exception as e:  # noqa - escaping exceptions are C05's subject; here: not refused properly
+                ctx.violation("post-handshake-message-raised", "%s: a 1-RTT CRYPTO frame with handshake message type %d made the API raise %r" % (role, t, e), case)
+                continue
+            ev = tk.sut._close_event
+            code = None if ev is None else ev.error_code
+            if t in PERMITTED[state]:
+                continue  # NewSessionTicket to a client: processed (or refused for its content)
+            if t in OPTIONAL.get(state, ()):
+                if code is None or not (0x100 <= code <= 0x1FF):
+                    ctx.violation("unsupported-post-handshake-message-not-refused", "%s: handshake message type %d after the handshake: close state %r (expected a CRYPTO_ERROR)" % (role, t, ev), case)
+                continue
+            if code != 0x100 + UNEXPECTED:
+                ctx.violation("out-of-order-message-accepted" if code is None else "out-of-order-message-wrong-alert", "%s (QUIC level, default configuration): handshake message type %d in a 1-RTT CRYPTO frame after the handshake: close state %r, expected CRYPTO_ERROR 0x%x (unexpected_message)" % (role, t, ev, 0x100 + UNEXPECTED), case)
+        if ctx.want_sample() and t % 64 == 0:
+            ctx.sample(case)
+    ctx.extra["exhaustive"] = True
+
+
 def replay(ctx, case):
     k = case.get("kind")
     if k == "table":
@@ -625,6 +660,8 @@ def replay(ctx, case):
         client_flight_sequences(ctx, max(len(case["seq"]), 1), 0, 1, case["request"])
     elif k == "pskch":
         psk_client_hellos(ctx)
+    elif k == "qpost":
+        quic_post_handshake_table(ctx, case["role"])
     elif k == "qcseq":
         quic_client_flight_sequences(ctx, max(len(case["seq"]), 1), 0, 1, case["request"], case["adversary"])
     elif k == "qseq":
@@ -644,6 +681,8 @@ def plan(tier, seed):
     for leaf in ("selfsigned", "foreign", "expired", "wrongname"):
         t.append(("server-flight-untrusted-%s" % leaf, {"fn": "sf", "maxlen": 4 if q else 5, "part": 0, "nparts": 1, "psk": False, "leaf": leaf}))
     t.append(("psk-client-hellos", {"fn": "pskch"}))
+    for role in ("client", "server"):
+        t.append(("quic-post-handshake-%s" % role, {"fn": "qpost", "role": role}))
     for adv in ("sent", "accepted"):
         for p in range(2):
             t.append(("quic-server-flight-%s-part%d" % (adv, p), {"fn": "qsf", "maxlen": 5 if q else 6, "part": p, "nparts": 2, "adversary": adv}))
@@ -661,6 +700,8 @@ def run_task(ctx, name, fn, **kw):
         table(ctx, kw["state"])
     elif fn == "pskch":
         psk_client_hellos(ctx)
+    elif fn == "qpost":
+        quic_post_handshake_table(ctx, kw["role"])
     elif fn == "qcf":
         quic_client_flight_sequences(ctx, kw["maxlen"], kw["part"], kw["nparts"], kw["request"], kw["adversary"])
     elif fn == "qsf":
